@@ -126,6 +126,17 @@ def check(prog, run):
                                             le = sym.expr_local(fb, int(x[1].split(".")[0][1:]))
                                             if le[0] == "call" and le[1] == "std::mem::take":
                                                 from_taken = True
+                                    # the queue itself, read before it is taken in the same call, is the same segment
+                                    qs = set()
+                                    for bb2, t2, name2, info2 in mir.calls(fb):
+                                        if name2 and mir.norm(name2) in ("std::mem::take", "core::mem::take") and t2["args"]:
+                                            a2 = sym.expr(fb, t2["args"][0])
+                                            while a2[0] == "ref":
+                                                a2 = a2[1]
+                                            if a2[0] in ("refplace", "load"):
+                                                qs.add(a2[1])
+                                    if any(isinstance(x, tuple) and x and x[0] == "load" and any(str(x[1]).startswith(q_ + ".[]") for q_ in qs) for x in sym.walk(ve)):
+                                        from_taken = True
                                     if from_taken and "dts" in sym.show(ve):
                                         dep_taken, dep_dts = True, True
                                         detail += " where self.%s := %s" % (fld, sym.show(ve)[:100])
